@@ -10,23 +10,23 @@ MODEL = ("trusted base: the reference model in harness/spec (self-checked agains
 
 CHECKS = {
  "C01": dict(
-   technique="property-based differential testing (rapid) against an independent reference model of the WHATWG basic URL parser + native coverage-guided fuzzing of the same oracle",
+   technique="property-based differential testing (rapid) against an independent reference model of the WHATWG basic URL parser + native coverage-guided fuzzing of the same oracle; bounded-exhaustive enumeration of all inputs of up to 3 (quick) / 5 (thorough) critical tokens x 8 bases against the same oracle",
    text="Generated (input, base) pairs from a URL grammar, mutated WPT vectors, token soup and arbitrary bytes are parsed through all three entry points and compared on failure/success, Href and all nine getters with a reference model written from the standard. Exploration: holds on every generated case; the class histogram in the evidence shows every parser state and failure state being entered.",
    ref="DESIGN.md §6 C01, §3", note=MODEL),
  "C03": dict(
-   technique="stateful property-based testing (rapid): round-trip oracle url.Parse(u.Href()) == u after the parse and after every setter of a generated history; exemption computed from the reference model",
+   technique="stateful property-based testing (rapid): round-trip oracle url.Parse(u.Href()) == u after the parse and after every setter of a generated history; exemption computed from the reference model; bounded-exhaustive enumeration of all 2-step (quick) / 3-step (thorough) setter histories over a 51-entry value table x 15 starts; native fuzzing",
    text="Generated start URLs and setter histories; after every step the serialization must parse again to the identical URL (Href + 9 getters). The statement's exception is computed per state from the reference model (dropped only where the standard's own state does not survive serialize-then-parse), not enumerated.",
    ref="DESIGN.md §6 C03, §7.9", note="trusted base: url.Parse itself as the inverse (round trip), the reference model for the exemption only, rapid"),
  "C04": dict(
-   technique="stateful property-based testing (rapid): validity predicate and getter-composition invariant evaluated after every step of generated parse/setter/resolve histories",
+   technique="stateful property-based testing (rapid): validity predicate and getter-composition invariant evaluated after every step of generated parse/setter/resolve histories; bounded-exhaustive enumeration of all 2-/3-step setter histories (+ a resolution) over a 51-entry value table x 15 starts; native fuzzing",
    text="Generated start URLs followed by setter and resolve steps; after every step a validity predicate written from the statement (scheme syntax, host/path/credentials/port structure, printable ASCII, percent-encode-set and forbidden-code-point freedom, canonical IPv6) and the composition of Href from the individual getters are evaluated.",
    ref="DESIGN.md §6 C04", note="trusted base: the predicate in harness/props/c04.go (written from the statement and the standard's set definitions), rapid"),
  "C05": dict(
-   technique="stateful property-based differential testing (rapid): lock-step comparison of generated setter histories against the reference model's API setter algorithms",
+   technique="stateful property-based differential testing (rapid): lock-step comparison of generated setter histories against the reference model's API setter algorithms; bounded-exhaustive enumeration of single setter calls (all values of up to 2/3 critical tokens x 17 starts x 9 setters) and of all 2-/3-step setter histories; native fuzzing",
    text="Generated start URLs and 1..8 (setter, value) steps applied in lock step to the implementation and to the reference model's setters; Href and all nine getters are compared after every step, so partial application and rejection are checked exactly. The evidence histogram shows every setter outcome (guard, failure state, override early return) and all 81 ordered setter pairs.",
    ref="DESIGN.md §6 C05, §3", note=MODEL),
  "C19": dict(
-   technique="stateful property-based testing (rapid): derived accessors recomputed from primary getters after every step of generated parse/setter/resolve/clone histories",
+   technique="stateful property-based testing (rapid): derived accessors recomputed from primary getters after every step of generated parse/setter/resolve/clone histories; bounded-exhaustive enumeration of all 2-/3-step setter histories followed by Clone and a resolution; native fuzzing",
    text="Generated histories biased to alternate IPv4/IPv6/domain hosts, ports 0/default/empty and scheme changes; after every step IsIPv4, IsIPv6, DecodedPort, Scheme/Protocol, Query/Search, Fragment/Hash, OpaquePath and IsSpecialScheme are recomputed from Hostname, Port, Protocol and Href and compared.",
    ref="DESIGN.md §6 C19", note="trusted base: the recomputation in harness/props/c19.go, rapid"),
  "C06": dict(
@@ -34,11 +34,11 @@ CHECKS = {
    text="Generated bases of every kind, references conditioned on the base, a second unrelated base, fragment and query texts; the six laws of the statement (three entry points agree, absolute is absolute, empty reference, fragment-only incl. opaque-path bases, query-only, scheme inheritance) are evaluated on every case; the histogram shows law x base kind.",
    ref="DESIGN.md §6 C06", note="trusted base: the law formulations in harness/props/c06.go, rapid; no reference model involved"),
  "C07": dict(
-   technique="property-based testing (rapid) with a constructive value oracle (address value drawn first, spellings rendered from it), an independent ends-in-a-number checker and differential comparison with the reference model's host parser",
+   technique="property-based testing (rapid) with a constructive value oracle (address value drawn first, spellings rendered from it), an independent ends-in-a-number checker and differential comparison with the reference model's host parser; bounded-exhaustive enumeration of all hosts of up to 4/6 critical tokens; native fuzzing",
    text="IPv4-ish hosts from three generators (value-first, text-first over the critical alphabet, boundary table) in all special schemes and as opaque hosts, through Parse and the host setters. Recognition is decided by an independently written checker, accepted values by the drawn 32-bit value, everything else by the reference model.",
    ref="DESIGN.md §6 C07", note=MODEL),
  "C08": dict(
-   technique="property-based testing (rapid) with a constructive value oracle and an independent canonical serializer, differential comparison with the reference model for near-miss texts, exhaustive enumeration of the 256 zero-run shapes",
+   technique="property-based testing (rapid) with a constructive value oracle and an independent canonical serializer, differential comparison with the reference model for near-miss texts, exhaustive enumeration of the 256 zero-run shapes; bounded-exhaustive enumeration of all bracket contents of up to 4/6 critical tokens; native fuzzing",
    text="IPv6 texts from value-first, text-first and mutation generators inside every bracket arrangement, in special / non-special / file URLs, with and without port, through Parse and the host setters; accept/reject per the standard's IPv6 parser with exactly one bracket pair, output equal to an independent canonical serializer, value preserved, reparse is the identity. The serializer's compression choice is enumerated over all 256 zero/non-zero patterns.",
    ref="DESIGN.md §6 C08", note=MODEL),
  "C09": dict(
@@ -50,7 +50,7 @@ CHECKS = {
    text="Membership of all 0x110000 code points and all 256 bytes in the six named sets is compared exhaustively with tables written from the standard, and every ASCII code point is pushed through every URL component (special and non-special) against the reference model. Random Set/Clear derivation programs must leave every earlier set and all named sets unchanged and differ from the parent exactly on the given bytes. Random strings x named and derived sets check the encode/decode laws of the statement.",
    ref="DESIGN.md §6 C10", note="trusted base: the set predicates in harness/spec/encode.go (typed from the standard), the model encoder in harness/props/c10.go, rapid"),
  "C11": dict(
-   technique="stateful property-based testing (rapid) against a list model with the standard's semantics, differential testing against a reference application/x-www-form-urlencoded parser, and a serialize-parse round trip",
+   technique="stateful property-based testing (rapid) against a list model with the standard's semantics, differential testing against a reference application/x-www-form-urlencoded parser, and a serialize-parse round trip; bounded-exhaustive enumeration of all queries of up to 4/6 critical tokens; native fuzzing",
    text="Operation sequences on SearchParams are mirrored on an ordered-list model and compared after every step (getters for all names in play; the whole order through Iterate on a twin). Generated query strings are parsed and compared with the reference form-urlencoded parser. Lists of arbitrary pairs are appended, the URL reparsed and the list compared.",
    ref="DESIGN.md §6 C11", note="trusted base: list model and reference codec in harness (written from the standard), rapid; known finding KF-C11-serializer is attributed only when the tree-style serializer explains the entire result"),
  "C12": dict(
